@@ -1312,6 +1312,20 @@ static void initializer2(Token **rest, Token *tok, Initializer *init) {
     return;
   }
 
+  // A string literal that initializes an array of character type may
+  // be enclosed in braces, e.g. `char s[] = {"abc"};` (C11 6.7.9p14-15).
+  if (init->ty->kind == TY_ARRAY && is_integer(init->ty->base) &&
+      init->ty->base->kind != TY_BOOL && equal(tok, "{") &&
+      tok->next->kind == TK_STR &&
+      tok->next->ty->base->size == init->ty->base->size &&
+      (equal(tok->next->next, "}") ||
+       (equal(tok->next->next, ",") && equal(tok->next->next->next, "}")))) {
+    string_initializer(&tok, tok->next, init);
+    consume(&tok, tok, ",");
+    *rest = skip(tok, "}");
+    return;
+  }
+
   if (init->ty->kind == TY_ARRAY) {
     if (equal(tok, "{"))
       array_initializer1(rest, tok, init);
